@@ -5,6 +5,13 @@ import (
 	"verif/vlib"
 
 	_ "verif/checks/chains"
+	_ "verif/checks/convert"
+	_ "verif/checks/exprs"
+	_ "verif/checks/flags"
+	_ "verif/checks/funcparams"
+	_ "verif/checks/literals"
+	_ "verif/checks/resolve"
+	_ "verif/checks/unittest"
 	_ "verif/checks/parse"
 )
 
